@@ -37,6 +37,34 @@ MUTATORS = {'append', 'extend', 'insert', 'remove', 'pop', 'clear', 'sort', 'rev
 IGNORED_CALLS = {'print', 'dprint'}
 
 
+def ctor_params(cls) -> Optional[List[str]]:
+    """positional parameter names of a class's constructor: its __init__, or the annotated fields of a dataclass"""
+    init = cls.lookup('__init__')
+    if init is not None:
+        if init.node.args.vararg:
+            return None
+        return [p_ for p_ in init.params if p_ != 'self']
+    if any('dataclass' in ast.unparse(d) for d in cls.node.decorator_list) or 'NamedTuple' in cls.base_names:
+        out = []
+        for c in reversed(cls.mro()):
+            for st_ in c.node.body:
+                if isinstance(st_, ast.AnnAssign) and isinstance(st_.target, ast.Name) and st_.target.id not in out:
+                    out.append(st_.target.id)
+        return out
+    return None
+
+
+def bind_keywords(params, args, kwargs):
+    """move keyword arguments into positional order as far as the parameters are consecutive from the left"""
+    if params is None or not kwargs:
+        return args, kwargs
+    kw = dict(kwargs)
+    pos = list(args)
+    while len(pos) < len(params) and params[len(pos)] in kw:
+        pos.append(kw.pop(params[len(pos)]))
+    return pos, [(k, v) for k, v in kwargs if k in kw]
+
+
 def _is_condition(e) -> bool:
     """syntactically a truth value: a comparison, and/or of conditions, or a negation"""
     if isinstance(e, ast.Compare):
@@ -352,6 +380,9 @@ class Executor:
         return Path(list(s.lits), list(s.effects), kind, val, line)
 
     # -- statements -------------------------------------------------------------
+    def pure_stmt(self, s) -> bool:
+        return False
+
     def exec_block(self, stmts, st: State, fctx: FuncInfo):
         """-> [(state, exit)]  exit = ('fall',) | ('return', ast|None, line) | ('raise', str, line) |
         ('break', None, line) | ('continue', None, line) | ('forever', None, line)"""
@@ -380,6 +411,18 @@ class Executor:
             if isinstance(s, ast.AnnAssign) and s.value is None:
                 return [(st, ('fall',))]
             targets = s.targets if isinstance(s, ast.Assign) else [s.target]
+            if len(targets) == 1 and isinstance(s.value, ast.IfExp) and not self.pure_stmt(s):
+                # x = a if c else b   is   if c: x = a  else: x = b
+                outs = []
+                for s3, b, ex3 in self.branch(s.value.test, st, fctx, ln):
+                    if ex3:
+                        outs.append((s3, ex3))
+                        continue
+                    sub = ast.Assign(targets=s.targets if isinstance(s, ast.Assign) else [s.target],
+                                     value=s.value.body if b else s.value.orelse)
+                    ast.copy_location(sub, s)
+                    outs.extend(self.exec_stmt(sub, s3, fctx))
+                return outs
             if len(targets) == 1 and isinstance(targets[0], ast.Name) and _is_condition(s.value):
                 # flag = <condition>: decided here, per path (a later `if flag:` / `return flag` then follows the path;
                 # keeping the expression instead would re-read state that may have been written in between)
@@ -1580,6 +1623,14 @@ class _Ev:
                 tgt = ast.Attribute(value=args[0], attr=args[1].value, ctx=ast.Store())   # setattr(o, 'x', v) is o.x = v
                 x.assign(tgt, args[2], st, self.fctx, ln)
                 return [(st, ast.Constant(value=None), None)]
+            if fname in ('itemgetter', 'operator.itemgetter') and len(args) == 1 and not kwargs and isinstance(args[0], ast.Constant):
+                # operator.itemgetter(k) is lambda x: x[k]
+                return [(st, ast.Lambda(args=ast.arguments(posonlyargs=[], args=[ast.arg(arg='_x')], kwonlyargs=[], kw_defaults=[], defaults=[]),
+                                        body=ast.Subscript(value=ast.Name(id='_x', ctx=ast.Load()), slice=args[0], ctx=ast.Load())), None)]
+            if fname in ('attrgetter', 'operator.attrgetter') and len(args) == 1 and not kwargs and isinstance(args[0], ast.Constant) \
+                    and isinstance(args[0].value, str) and args[0].value.isidentifier():
+                return [(st, ast.Lambda(args=ast.arguments(posonlyargs=[], args=[ast.arg(arg='_x')], kwonlyargs=[], kw_defaults=[], defaults=[]),
+                                        body=ast.Attribute(value=ast.Name(id='_x', ctx=ast.Load()), attr=args[0].value, ctx=ast.Load())), None)]
             if _is_exception_name(fname) and fname not in st.locals:
                 # constructing an exception object has no effect; its arguments are messages
                 return [(st, ast.Call(func=name(fname), args=[], keywords=[]), None)]
@@ -1594,14 +1645,7 @@ class _Ev:
             if r and r[0] == 'class':
                 # constructor call: effect (it may schedule events etc.).  Arguments are put into the order of the
                 # constructor's parameters: Packet(t, size=s) and Packet(time=t, size=s) are the same call
-                init = r[1].lookup('__init__')
-                if init is not None and kwargs and not init.node.args.vararg:
-                    ps = [p_ for p_ in init.params if p_ != 'self']
-                    kw = dict(kwargs)
-                    pos = list(args)
-                    while len(pos) < len(ps) and ps[len(pos)] in kw:
-                        pos.append(kw.pop(ps[len(pos)]))
-                    args, kwargs = pos, [(k, v) for k, v in kwargs if k in kw]
+                args, kwargs = bind_keywords(ctor_params(r[1]), args, kwargs)
                 return self.effect_call(r[1].name, name(r[1].name), args, kwargs, st, ln)
             return self.effect_call(fname, name(fname), args, kwargs, st, ln)
         # --- attribute calls
@@ -1679,6 +1723,10 @@ class _Ev:
             if meth in PURE_METHODS or full in x.opts.pure_calls or full == 'dict.fromkeys':
                 return [(st, ast.Call(func=ast.Attribute(value=recv, attr=meth, ctx=ast.Load()), args=args,
                                       keywords=[ast.keyword(arg=k, value=v) for k, v in kwargs]), None)]
+            if kwargs:
+                defs = [g for g in x.repo.all_functions() if g.name == meth and g.cls is not None]
+                if len(defs) == 1 and not defs[0].node.args.vararg:
+                    args, kwargs = bind_keywords([p_ for p_ in defs[0].params if p_ not in ('self', 'cls')], args, kwargs)
             out = self.effect_call(full, ast.Attribute(value=recv, attr=meth, ctx=ast.Load()), args, kwargs, st, ln)
             # a call on an object may change that object's fields
             prt = plain(rterm)
@@ -1711,6 +1759,8 @@ class _Ev:
         if callee in self.x.opts.pure_calls:
             return [(st, node, None)]
         callee = plain(callee)
+        if short in ('add_nodes_from', 'add_edges_from') and args:
+            args = [terms.iter_canon(args[0], consumed_at_once=True)] + list(args[1:])     # networkx: only iterated
         k = st.counters.get(callee, 0) + 1
         st.counters[callee] = k
         aterms = [term(a) for a in args]
@@ -1812,6 +1862,16 @@ class _Subst(ast.NodeTransformer):
         if isinstance(n.func, ast.Attribute):
             n.func.value = self.visit(n.func.value)
         else:
+            if isinstance(n.func, ast.Name) and n.keywords and all(k.arg for k in n.keywords):
+                # a constructor of the repository: keywords into parameter order, as at statement level
+                try:
+                    r = self.ev.x.repo.resolve_name(self.ev.fctx.module, n.func.id)
+                except Exception:  # pragma: no cover
+                    r = None
+                if r and r[0] == 'class':
+                    a2, k2 = bind_keywords(ctor_params(r[1]), list(n.args), [(k.arg, k.value) for k in n.keywords])
+                    n.args = a2
+                    n.keywords = [ast.keyword(arg=k, value=v) for k, v in k2]
             n.func = self.visit(n.func)
         n.args = [self.visit(a) for a in n.args]
         for k in n.keywords:
